@@ -179,7 +179,47 @@ pub fn c12(opts: &Opts, out: &mut Out) {
                 })
                 .collect();
             let mut ts: Vec<_> = insts.iter().map(|i| i.transcript()).collect();
+            let tids: Vec<u64> = ts.iter().map(|t| t.shadow_id).collect();
+            merlin::tap::start();
+            fm::tap_start();
             let r = fmrun::Proof::verify_batch(&mut ts, &stmts, &proofs, VerifyAction::VerifyOnly);
+            let msm_in = fm::msm_inputs();
+            let _ = fm::tap_take();
+            let recs = merlin::tap::take();
+            // chunk-level scalar tie: accumulated static vectors, concatenated dynamic scalars
+            if let Some((st, dy, table)) = msm_in.last() {
+                let ws = fmx::weights_of(&recs);
+                let chs: Vec<Option<fmx::Chal>> = tids.iter().map(|id| fmx::chal_of(&recs, *id)).collect();
+                if ws.len() == insts.len() && chs.iter().all(|c| c.is_some()) {
+                    let max_n = insts.iter().map(|i| i.n * i.m).max().unwrap();
+                    let members: Vec<String> = insts
+                        .iter()
+                        .zip(proofs.iter())
+                        .zip(chs.iter().zip(ws.iter()))
+                        .map(|((inst, proof), (ch, w))| {
+                            let ch = ch.as_ref().unwrap();
+                            let parts = fmx::parts(proof);
+                            format!(
+                                "{};{};{};{};{};{};{};{};{};{}",
+                                inst.m,
+                                nlist(&inst.promises.iter().map(|p| p.unwrap_or(0)).collect::<Vec<_>>()),
+                                hs(&parts.r1),
+                                hs(&parts.s1),
+                                hlist(&parts.d1),
+                                hs(&ch.y),
+                                hs(&ch.z),
+                                hlist(&ch.es),
+                                hs(&ch.e),
+                                hs(w)
+                            )
+                        })
+                        .collect();
+                    out.req(
+                        format!("bscalars n={} t={} maxN={} pad={} members={}", n, t, max_n, table - 2 * max_n, members.join("|")),
+                        format!("static={} dynamic={} table={}", hlist(st), hlist(dy), table),
+                    );
+                }
+            }
             out.oracle("C12:mixed-capacity-batch", r.is_ok(), &format!("round={} variant={} n={} t={}", round, variant, n, t), &format!("err={:?}", r.as_ref().err()));
             classes.insert((n, 100 + round, variant, 0));
         }
